@@ -134,7 +134,9 @@ def fk_core(rep, rule, fk):
     # path summaries of FK (conditional expressions lowered to statements, locals substituted): what reaches the kernel, under which facts
     from ..engine import peval as _pe
     from ..engine.paths import paths_of
-    flat = _pe.flatten({}, fk.node, depth=1, impure=True)
+    # private helpers of the class (a clamp guard moved into a helper) read in place, conditional expressions lowered
+    flat = _pe.flatten({n_: f_.node for n_, f_ in fk.cls.methods.items()} if fk.cls is not None else {}, fk.node, depth=2,
+                       stop=('thetaProtector',), impure=True)
     prot = fk.params[2] if len(fk.params) > 2 else 'protect'
     HOME = ('self._end_effector_home.gTM()', 'self._end_effector_home.TM')
     n_calls = 0
